@@ -471,6 +471,20 @@ fn main() {
             out.flush().unwrap();
             println!("{{\"programs\": {}, \"runs\": {}, \"incomplete\": {}}}", progs.len(), n, hangs);
         }
+        "claim-ports" => {
+            // self-test of the port claims: prints the ports this process got
+            let base: u16 = get("port", "50000").parse().unwrap();
+            let n: usize = get("count", "20").parse().unwrap();
+            let mut got = Vec::new();
+            let mut next = base;
+            for _ in 0..n {
+                let p = tcp::free_port(next);
+                next = p + 1;
+                got.push(p);
+            }
+            std::thread::sleep(std::time::Duration::from_millis(300));
+            println!("{:?}", got);
+        }
         "conc-casuniq" => {
             // C02 across keys: the shared CAS counter under free-running threads
             let threads: usize = get("threads", "8").parse().unwrap();
